@@ -168,6 +168,7 @@ def run_reader(wire: bytes, cfg: dict, tr: dict, keep_objs=False, use_read=False
         n = 0
         if use_read or rereads or cfg.get("handler_kind") == "raise_once":
             ends = 0
+            late_ends = 0
             while True:
                 try:
                     raw, parsed = ubr.read()
@@ -175,7 +176,14 @@ def run_reader(wire: bytes, cfg: dict, tr: dict, keep_objs=False, use_read=False
                     continue  # the application catches its own handler's failure and keeps reading
                 if raw is None and parsed is None:
                     ends += 1
-                    if ends > rereads:
+                    if not rereads:
+                        break
+                    # the application keeps asking until the peer has long finished: at least
+                    # `rereads` times, and (bounded) for as long as scheduled data is still to come
+                    arrived = transport.everything_arrived() if hasattr(transport, "everything_arrived") else True
+                    if arrived:
+                        late_ends += 1
+                    if (ends > rereads and late_ends >= 3) or ends > 2000:
                         break
                     if hasattr(transport, "idle"):
                         transport.idle(1.0)  # the application waits a little and asks again
